@@ -37,6 +37,7 @@ HB = os.path.join(WORK, "hb")
 HX = os.path.join(HB, "hx")
 NPROC = min(16, os.cpu_count() or 4)
 BAD = "( x42414443415345 )"
+NOORACLE = "( i-2 )"
 CRASH = "( x4352415348 )"
 HANG = "( x48414e47 )"
 
@@ -354,17 +355,31 @@ def run_both(prop, cases):
             out[idx] = {"impl": norm_obs(im), "model": norm_obs(mo[0]), "cm": mo[1], "ci": mo[2],
                         "stderr": errlist[k].get(j)}
             out[idx]["diverge"] = out[idx]["impl"] != out[idx]["model"]
+            if NOORACLE in out[idx]["model"]:
+                # the case carries no oracle answer for something the model needed: not a valid case
+                out[idx]["model"] = BAD
+                out[idx]["diverge"] = False
+                out[idx]["ci"] = "1"
+                out[idx]["noracle"] = True
     return out
 
 
 # ----------------------------------------------------------------------------- step 5: shrink
 
-def candidates(v):
+# top-level positions that hold oracle tables (tabulated answers of Qt): never shrunk
+PROTECT = {"sock": {2}, "srv": {2}}
+
+
+def candidates(v, protect=frozenset()):
     """smaller variants of a value tree"""
     if isinstance(v, list):
         for i in range(len(v)):
+            if i in protect:
+                continue
             yield v[:i] + v[i + 1:]
         for i in range(len(v)):
+            if i in protect:
+                continue
             for c in candidates(v[i]):
                 yield v[:i] + [c] + v[i + 1:]
     elif isinstance(v, bytes):
@@ -397,7 +412,7 @@ def shrink(prop, fam, case, pred, rounds=40, width=64):
             break
         cands = []
         seen = set()
-        for c in candidates(cur):
+        for c in candidates(cur, PROTECT.get(fam, frozenset())):
             k = vlib.enc(c)
             if k not in seen:
                 seen.add(k)
@@ -527,8 +542,11 @@ def main():
     fails = []
     diverges = []
     model_spec_fail = []
+    invalid_cases = 0
     for c, t, r in zip(lines, tags, res):
         hist[t] = hist.get(t, 0) + 1
+        if r.get("noracle") or r["model"] == BAD:
+            invalid_cases += 1
         distinct.add(r["impl"])
         if getattr(gen, "nontrivial", None) is None or gen.nontrivial(c, r["impl"]):
             nontrivial.add(c)
@@ -567,7 +585,7 @@ def main():
             found = None
             cur = vlib.dec(val)
             neigh = []
-            for cand in candidates(cur):
+            for cand in candidates(cur, PROTECT.get(fam, frozenset())):
                 neigh.append(fam + " " + vlib.enc(cand))
                 if len(neigh) >= 400:
                     break
@@ -633,6 +651,7 @@ def main():
             "corpus_cases": ncorpus,
             "traces_validated_against_impl": len(lines),
             "divergences": len(diverges),
+            "invalid_cases_skipped": invalid_cases,
             "spec_failures_on_impl": len(fails),
             "samples": samples[:6],
             "repo_fingerprint": repo_fingerprint(),
